@@ -19,7 +19,12 @@ func vsC02Rig() (*vsRig, *vsOpts) {
 	rt.Assert(r.bq.RegisterPredeclaredPlatformQueue(digest.EmptyInstanceName, p, nil, 0, 0, []uint32{0}) == nil, "queue registered")
 	h := r.addAction(1, p, false)
 	r.addClient("", h, 0, "inv-a")
-	r.addClient("", h, 0, "inv-b")
+	if rt.NondetBool("the second client belongs to the same invocation") {
+		// (its Execute re-attaches to the first client's operation)
+		r.addClient("", h, 0, "inv-a")
+	} else {
+		r.addClient("", h, 0, "inv-b")
+	}
 	r.addWorker("", p, 0, "w0")
 	o := &vsOpts{
 		maxExecs:    1,
